@@ -246,16 +246,21 @@ class C07(PropBase):
     translators = ["c07_walker_args.py"]
     bins = ["c07"]
     rule = ("case = STACK WIN records (+ optionally one STACK CFI INIT record), lookup address, callee x86 registers, grand-callee "
-            "parameter size, memory image; walked (A) by SymbolFile::walk_frame with a 32-bit mock FrameWalker or (B) by one x86 "
-            "walk_stack step through the real CfiStackWalker. Exhaustive: every program of length <= 4 over the 17-token WIN "
-            "alphabet; size fields {0,1,4,2^31,2^32-1}^3 x grand-callee size x esp in {0,4,7,8,mid,2^32-4} for frame-data and FPO "
-            "(x allocates_base_pointer x has-grand-callee); random longer programs; random overlapping/duplicate/inconsistent "
-            "record sets; statement-sequence programs x callee validity sets for (B). Non-trivial = the walk succeeded. distinct = distinct case lines")
+            "parameter size, memory image; walked (A) by SymbolFile::walk_frame with a 32-bit mock FrameWalker, (B) by one x86 "
+            "walk_stack step through the real CfiStackWalker from a context frame, or (F) by one x86 walk_stack step resumed from a "
+            "frame LIST (parameter sizes of the frames under the callee, known or unknown), so that has_grand_callee / "
+            "grand_callee_parameter_size are derived by the real walk_stack + CfiStackWalker::from_ctx_and_args. Exhaustive: every "
+            "program of length <= 4 over the 17-token WIN alphabet; size fields {0,1,4,2^31,2^32-1}^3 x grand-callee size x esp in "
+            "{0,4,7,8,mid,2^32-4} for frame-data and FPO (x allocates_base_pointer x has-grand-callee); random longer programs; random "
+            "overlapping/duplicate/inconsistent record sets; statement-sequence programs x callee validity sets for (B); for (F) 14 frame "
+            "lists x FPO / frame-data records x (return slot holds the callee's own eip: direct recursion / does not) x callee sp "
+            "outside the stack x lookup at eip-1. Non-trivial = the walk succeeded. distinct = distinct case lines")
     trusted_base = [
         "Coq 8.16.1 kernel (vm_compute only in Examples / witness lemmas)",
         "model C07/Model.v written by hand from walker.rs (eval_win_expr, FPO), parser.rs (record acceptance on parsed fields, insert_win_stack_info), mod.rs walk_frame; reuses C06/Model.v and C08/Model.v; tied to the code by the correspondence run",
-        "hex/decimal field parsing of the STACK WIN line (nom) is exercised by the harness, not modelled",
-        "x86::get_caller_by_cfi post-processing mirrored in C06/Driver.v post_real (owned by C05)",
+        "CfiStackWalker::from_ctx_and_args: the has_grand_callee / grand_callee_parameter_size field expressions are regenerated from minidump-unwind/src/lib.rs by translate/c07_walker_args.py (Gen/C07WalkerArgs.v; the rest of the constructor, walk_stack's grand-callee statement and the FrameWalker getters are pinned textually); the translator's small Option-chain language is trusted",
+        "byte-level text route (C09/Grammar.v line parsers, hand-written from nom) proved equal to the record route for files without STACK CFI records (c07_text_route_agrees_parsed: from the lines of the file; the run-length normal form of program strings is proved as a parser invariant) and run side by side on every case; the harness's hex printing of the fields is test glue",
+        "x86::get_caller_by_cfi post-processing mirrored in C06/Driver.v post_real (owned by C05); C07/Walker.v fpo_walk is walk_stack's loop restricted to FPO records (abp = false) on the abstract 32-bit walker",
         "extraction: ExtrOcamlBasic only; ocaml/zconv.ml + ocaml/c07/main.ml glue; harness/src/bin/c07.rs + harness/src/cfi_common.rs",
     ]
     manifest = {
@@ -263,13 +268,25 @@ class C07(PropBase):
                 "(frame-size sum, FPO address arithmetic, '@', '=tok' slicing, the overlap-repair unwrap); through the real CfiStackWalker only "
                 "the six registers a record sets (+FPO's documented ebp/ebx pass-through) are valid in the caller — stated with the known finding "
                 "F-C07a as an explicit hypothesis and refuted without it; program-string constants, assignment, .undef and 32-bit wrap characterised. "
-                "Model tied to the code by exhaustive programs to length 4, extreme size fields, overlapping record sets, through a mock FrameWalker and "
-                "through x86 walk_stack, debug and release; an independent Python reference judges every implementation answer.",
-        "note": "Trusted: Coq kernel; hand-written model (correspondence-checked); extraction + glue; nom field parsing only exercised. Known finding F-C07a "
-                "(implicit forwarding of ebp/ebx/esi/edi through STACK WIN frames) is pinned by minidump-stackwalk snapshots and reported as KNOWN-FINDING. No axioms.",
+                "Round 4: has_grand_callee / grand_callee_parameter_size are derived from the call stack by a model of walk_stack + "
+                "CfiStackWalker::from_ctx_and_args whose field expressions are translated from the source (c07_walker_args: has a grand-callee = "
+                "is not the context frame, parameter size = the grand-callee's when known else 0); the FPO leftover-return-address skip can only "
+                "touch the context frame (c07_fpo_no_skip_above_context); every well-formed all-FPO x86 stack of ANY depth — functions with or "
+                "without FUNC records, direct recursion from one call site — is walked to exactly its generated chain (c07_fpo_recovers_chain, "
+                "c07_fpo_recursion_chain; induction on the activations); the byte-level text route (C09 grammar -> finish -> tables) equals the "
+                "record route the theorems are about (c07_text_tables_agree, c07_text_route_agrees_parsed: walk_frame_text = walk_frame on the parsed "
+                "records for every file without STACK CFI records; the normal form of parsed strings is a proved parser invariant). "
+                "Model tied to the code by exhaustive programs to length 4, extreme size fields, overlapping record sets, through a mock FrameWalker, "
+                "through x86 walk_stack from a context frame and from frame lists, debug and release; an independent Python reference judges "
+                "every implementation answer.",
+        "note": "Trusted: Coq kernel; hand-written model (correspondence-checked); translator for the from_ctx_and_args field expressions; extraction + glue. "
+                "c07_fpo_recovers_chain is about FPO records with allocates_base_pointer = false on the abstract 32-bit walker (frame-data programs and "
+                "abp = true in whole walks are covered by the run: C04's STACK WIN stacks). Known finding F-C07a (implicit forwarding of "
+                "ebp/ebx/esi/edi through STACK WIN frames) is pinned by minidump-stackwalk snapshots and reported as KNOWN-FINDING. No axioms.",
     }
     assumptions = ["bare (non-$, non-.) names are rejected by the evaluator although the STACK WIN docs list `<alphanumeric>` among the values (documentation matter, see design/C07.md); treated as undocumented by the oracle",
-                   "the mock walker's log of clear_caller_register calls is compared model-vs-code only (not judged by the oracle)"]
+                   "the mock walker's log of clear_caller_register calls is compared model-vs-code only (not judged by the oracle)",
+                   "front-end F places the frames under the callee into CallStack::frames by hand (public fields); only their parameter_size is read by the step under test"]
 
     def canon_model(self, case, ans):
         return "P;;" if ans.startswith("P;;") else ans
